@@ -187,6 +187,7 @@ class Interp:
         self.contracts_used = set()
         self.tolerant = 0                   # >0: float comparisons with tolerance (replay of clauses)
         self.lemmas_used = set()
+        self.inlined_functions = {}
 
     # ------------------------------------------------------------------ util
     @property
@@ -953,7 +954,9 @@ class Interp:
             return self.registry.apply_contract(self, c, f, args, kwargs, node, frame)
         if c is not None and c.inline or self.inline_all or getattr(f, "__pyvc_thm__", False) \
                 or (self.registry is not None and self.registry.may_inline(f)):
-            self.contracts_used.add("inline:%s.%s" % (f.__module__, f.__qualname__))
+            self.contracts_used.add("inline:%s:%s" % (f.__module__, f.__qualname__))
+            if not getattr(f, "__pyvc_thm__", False):
+                self.inlined_functions[id(unwrap(f).__code__)] = f
             return self.run_function(f, args, kwargs)
         if not (deep_sym(args) or deep_sym(kwargs)):
             # all-concrete call of an uncontracted typhon helper: run the real thing
